@@ -304,7 +304,7 @@ func runSwarm(r *vh.Run, c scase, budget *tunx.Budget) {
 	if c.IdleS > 0 {
 		fam = "long-lived-tunnels"
 	}
-	heads := []string{"HTTP/1.1 200 OK\r\n\r\n", "HTTP/1.1 200 Connection established\r\nProxy-Agent: verif-downstream\r\n\r\n", "HTTP/1.1 200 OK\r\nContent-Length: 0\r\n\r\n"}
+	heads := dsHeads
 	no := 0
 	maxOverlap := 0
 	bad := 0
@@ -323,7 +323,7 @@ func runSwarm(r *vh.Run, c scase, budget *tunx.Budget) {
 			if c.ModDelayUS > 0 {
 				t.modDelay = time.Duration(rng.Intn(c.ModDelayUS+1)) * time.Microsecond
 			}
-			t.dsHead = heads[rng.Intn(len(heads))]
+			t.dsHead = heads[(c.Idx+no)%len(heads)]
 			tuns = append(tuns, t)
 			s.mu.Lock()
 			s.byHost[t.host] = t
@@ -412,7 +412,7 @@ func runSwarm(r *vh.Run, c scase, budget *tunx.Budget) {
 			return
 		}
 		for _, t := range tuns {
-			if atomic.LoadInt32(&t.headSeen) == 2 || atomic.LoadInt32(&t.status) != 200 {
+			if atomic.LoadInt32(&t.headSeen) == 2 || atomic.LoadInt32(&t.status)/100 != 2 {
 				r.ViolationCase(c, "C04:connect-status:downstream", fmt.Sprintf("tunnel %d (%s): CONNECT through the downstream proxy answered status %d / error %v", t.no, t.host, atomic.LoadInt32(&t.status), t.headErr.Load()), nil)
 				return
 			}
